@@ -13,7 +13,7 @@ theorem mequiv_refl (a : MExp R) : a ≈ₘ a := ⟨rfl, rfl, fun _ _ _ _ => rfl
 
 /-- goal: `(sub-term).WF`, hypothesis `hwf : (matched expression).WF` -/
 macro "remora_wf" : tactic => `(tactic| (
-  simp only [VExp.WF, MExp.WF, VExp.size, MExp.size1, MExp.size2] at *
+  simp only [VExp.Equiv, MExp.Equiv, VExp.WF, MExp.WF, VExp.size, MExp.size1, MExp.size2] at *
   (try split_ifs at * ) <;>
   first
   | assumption
@@ -21,5 +21,18 @@ macro "remora_wf" : tactic => `(tactic| (
   | (simp_all; done)
   | (simp_all <;> omega)
   | (refine ⟨?_, ?_⟩ <;> (try refine ⟨?_, ?_⟩) <;> (try refine ⟨?_, ?_⟩) <;> first | assumption | omega | (simp_all; done) | (simp_all <;> omega))))
+
+
+/-- closes the generated `rule_*_wf` lemmas: the rewritten expression is well-formed -/
+macro "remora_rule_wf" : tactic => `(tactic| (
+  simp only [VExp.Equiv, MExp.Equiv, VExp.WF, MExp.WF, VExp.size, MExp.size1, MExp.size2] at * <;>
+  (try split_ifs at * ) <;>
+  first
+  | trivial
+  | assumption
+  | omega
+  | (simp_all; done)
+  | (simp_all <;> omega)
+  | (refine ⟨?_, ?_⟩ <;> (try refine ⟨?_, ?_⟩) <;> (try refine ⟨?_, ?_⟩) <;> first | trivial | assumption | omega | (simp_all; done) | (simp_all <;> omega))))
 
 end SharkVerif.Remora
